@@ -119,6 +119,7 @@ func (c *Client) DescribeClientQuotas(ctx context.Context, req *DescribeClientQu
 	}
 	ret := &DescribeClientQuotasResponse{
 		Throttle: makeDuration(res.ThrottleTimeMs),
+		Error:    makeError(res.ErrorCode, res.ErrorMessage),
 		Entries:  responseEntries,
 	}
 
